@@ -356,6 +356,10 @@ def gen_queries(rng, verts, tol, n):
             d = vnorm(sub(vj, p))
             f = rng.choice([0.5, 0.999, 1.001, 1.5, 1.0 - 1e-6, 1.0 + 1e-6, rng.uniform(0.2, 2.0)])
             qs.append(dict(kind="sphere", p=p, r=max(d, 0.05) * f))
+        elif k < 0.26:
+            # sphere centred on (or within TOL/2 of) a vertex with a zero or negative radius: nothing is strictly inside
+            off = mul(tol * rng.choice([0.0, 0.5, 0.5]), rand_dir(rng))
+            qs.append(dict(kind="sphere", p=add(vi, off), r=rng.choice([0.0, 0.0, -0.5])))
         elif k < 0.32:
             p = [rng.uniform(lo[i] - 0.5, hi[i] + 0.5) for i in range(3)]
             qs.append(dict(kind="sphere", p=p, r=rng.choice([rng.uniform(0.1, 4.0), 0.0, -1.0, 100.0])))
@@ -1017,7 +1021,7 @@ class C18(Prop):
             shards.append(("rd_%d" % (s0 // per), "\n".join(body) + "\n"))
         # (c) re-orienter ----------------------------------------------------------------------
         perms = sym48()
-        n_blocks = ctx.n(10, 300)
+        n_blocks = ctx.n(10, 150)
         n_views = ctx.n(3, 5)
         ocases = []
         hull_bad = 0
